@@ -21,7 +21,7 @@ SPEC = os.path.join(V.VERIF, "spec")
 
 INV_PROP = {
     "ElectionSafety": "C01", "LearnerNeverCampaignsOrVotes": "C01", "VoteOncePerTerm": "C01",
-    "LogMatching": "C02", "CommittedNeverTruncated": "C02", "StateMachineSafety": "C02",
+    "LogMatching": "C02", "CommittedNeverTruncated": "C02", "StateMachineSafety": "C02", "ReadStateSafety": "C02",
     "LeaderCompleteness": "C03", "DurableCommit": "C03", "RestartSound": "C03",
 }
 ELECTION_MSGS = {"MsgVote", "MsgVoteResp", "MsgPreVote", "MsgPreVoteResp", "MsgTimeoutNow", "MsgTransferLeader"}
@@ -53,6 +53,8 @@ SPEC_MUTANTS = [
     ("hbcommit", "MC_ZRaft_Log.cfg", {"MaxElect": "2", "MaxProp": "1", "MaxLog": "2", "FHeartbeat": "TRUE", "FSnap": "FALSE"}, "C02", 500),
     ("prevterm", "MC_ZRaft_Log.cfg", {"MaxElect": "3", "MaxTerm": "4", "MaxLog": "2", "MaxProp": "0", "MaxMsgs": "6", "MaxDup": "0",
                                       "MaxAppEnts": "8", "FResend": "FALSE", "FHeartbeat": "FALSE", "FSnap": "FALSE"}, "C02", 900),
+    ("readnoquorum", "MC_ZRaft_Read.cfg", {}, "C02", 600),       # needs MaxMsgs 4 (cfg as is): 228 190 states
+    ("readnotermcheck", "MC_ZRaft_Read.cfg", {}, "C02", 600),    # 582 167 states
     ("hupconf", "MC_ZRaft_ConfShrink.cfg", {}, "C01", 300),
     ("pendingconf", "MC_ZRaft_ConfShrink.cfg", {}, "C01", 300),
 ]
@@ -237,7 +239,7 @@ def attribute(ev, inv, fallback):
         return pick(["C02", "C03"])                  # append / commit / snapshot guards
     if k in ("tick", "campaign", "transfer", "applyconf", "proposeconf", "start"):
         return "C01"
-    if k == "propose":
+    if k in ("propose", "readindex"):
         return "C02"
     if k in ("ready", "advance"):
         return pick(["C02", "C03"])                  # hand-out cursor; what must be persisted
@@ -268,6 +270,9 @@ def signature(events, v, c):
     if ev:
         voters = ev.get("post", {}).get("voters") or []
         sig["single_voter"] = len(voters) == 1
+        if ev.get("ev") == "ready" and (ev.get("rd", {}).get("reads") or []):
+            sig["read_state_released"] = True
+            sig["learner_present"] = bool(ev.get("post", {}).get("learners"))
         if ev.get("ev") == "panic":
             sig["panic"] = re.sub(r"[0-9]+", "N", ev.get("s", ""))[:80]
     return sig, ev
@@ -287,10 +292,10 @@ def slim(e):
 
 
 ANTECEDENTS = {
-    "C01": ["campaigns", "contested_elections", "elections_with_learner_present", "votes_granted",
+    "C01": ["transfers", "timeoutnow_campaigns", "forced_votes_granted_while_leader_known", "transfer_aborted_by_timeout", "campaigns", "contested_elections", "elections_with_learner_present", "votes_granted",
             "votes_after_restart", "vote_requests_at_learner", "leaders_elected", "transfers",
             "conf_proposals", "conf_applied", "campaigns_with_unapplied_entries", "phases_isolate_leader"],
-    "C02": ["divergent_suffix_truncations", "snapshot_installs", "snapshot_restores", "paginated_handouts",
+    "C02": ["read_requests", "read_states_handed_out", "divergent_suffix_truncations", "snapshot_installs", "snapshot_restores", "paginated_handouts",
             "handouts", "entries_handed_out", "leaders_elected", "proposals", "duplicated_deliveries", "msgsnap_sent"],
     "C03": ["crashes", "restarts", "crash_after_commit_idle", "crash_after_commit_taken", "crash_after_commit_ents",
             "crash_after_commit_persisted", "crash_after_commit_earlysent", "crash_after_commit_sent",
@@ -430,7 +435,7 @@ def label_to_op(name, a):
 FAMILIES = {
     "C01": ["MC_ZRaft_Election_00.cfg", "MC_ZRaft_Election_01.cfg", "MC_ZRaft_Election_10.cfg",
             "MC_ZRaft_Election_11.cfg", "MC_ZRaft_Conf.cfg", "MC_ZRaft_ConfShrink.cfg"],
-    "C02": ["MC_ZRaft_Log.cfg", "MC_ZRaft_Election_00.cfg"],
+    "C02": ["MC_ZRaft_Log.cfg", "MC_ZRaft_Election_00.cfg", "MC_ZRaft_Read.cfg"],
     "C03": ["MC_ZRaft_Crash.cfg", "MC_ZRaft_Log.cfg"],
 }
 # quick tier: smaller constants per family (measured: every run below finishes in < 90 s at 3 workers)
@@ -442,6 +447,7 @@ QUICK_OVERRIDES = {
     "MC_ZRaft_Election_11.cfg": {"MaxDup": "0", "MaxProp": "0", "MaxMsgs": "3"},
     "MC_ZRaft_Log.cfg": {"MaxElect": "2", "MaxProp": "1", "MaxLog": "2", "FHeartbeat": "FALSE", "FSnap": "FALSE"},
     "MC_ZRaft_Crash.cfg": {"MaxElect": "1", "MaxProp": "0", "MaxCrash": "1", "FPartial": "FALSE", "MaxMsgs": "2", "MaxLog": "1"},
+    "MC_ZRaft_Read.cfg": {"MaxMsgs": "3", "MaxProp": "0"},   # (with MaxProp 1: 114 082 states, 51 s at 6 workers)
     "MC_ZRaft_Conf.cfg": {"Collapsed": "TRUE", "MaxMsgs": "3"},
     "MC_ZRaft_ConfShrink.cfg": {"Collapsed": "TRUE", "MaxMsgs": "3"},
 }
@@ -529,6 +535,14 @@ def run_check(ctx, prop):
             st2 = dict(n=4, voters=[1, 2, 3], learners=[], prevote=False, cq=False, maxsz=0, maxcsz=0,
                        storage="rocks-mem", profile="noconf", steps=1200)
             conformance(ctx, zr, prop, [("rocks-snapshot-over-longer-log", st2, 3006)], stats, samples, par=1)
+        if prop == "C02":
+            # isolate stage of finding raft-readindex-counts-learner-acks (a deposed leader partitioned with its
+            # learner serves a read)
+            isr = dict(n=4, voters=[1, 2, 3], learners=[4], prevote=False, cq=False, maxsz=1 << 20, maxcsz=0,
+                       storage="memory", profile="readlearner", steps=0, noavoid=True)
+            b0 = stats["rejected"]
+            conformance(ctx, zr, prop, [("stale-read-via-learner-isolate", isr, ctx.seed)], stats, samples, par=1, expect_sig=True)
+            stats["isolate_rejected"] += stats["rejected"] - b0
         if prop in ("C02", "C03"):
             # snapshot over a divergent tail (scenarioSnapshotOverDivergentTail, three variants per run):
             # 5 voters, three leaderships, the returning replica's log is longer than the snapshot with a
